@@ -1,4 +1,5 @@
 (* C07 - totality: any text and any valid option set gives a result or SQLParseError. *)
+From SqlModel.Inst Require PassTabRun.   (* the grouping tables of Group/Passes.v equal the ones regenerated from the source *)
 From SqlModel Require Import Base PyStr Re Lexer Node Passes TotalDefs TotalFacts.
 From SqlModel.Filters Require Import OptDefs OptFacts StripComments StripCommentsFacts.
 From SqlModel.Gen Require Import OptTab.
@@ -26,3 +27,11 @@ Definition C07_group_where_diverges_without_shape_refuted := group_where_diverge
 (* strip_comments is total on every tree *)
 Theorem C07_strip_comments_total : forall n, exists n', strip_comments n = Ok n'.
 Proof. exact sc_total. Qed.
+
+(* RecursionError is one of the exceptions the property excludes: every site from which a depth-recursive function is
+   reachable lies inside the try/except RecursionError -> SQLParseError of FilterStack.run (obligations over the call graph
+   regenerated from the source, Inst/C15.v; the budget theorems are Props/C15.v) *)
+From SqlModel.Inst Require C15.
+Definition C07_recursion_guarded := C15.C15_callgraph.
+Definition C07_recursion_guard_shape := C15.C15_guard_shape.
+Definition C07_entries_guarded := C15.C15_entries_guarded.
